@@ -4,9 +4,9 @@
     Quantified over every buffer size (non-zero u32), pool size, pool memory contents, slot,
     fill length and every sequence of [truncate], [clear], [remove] (all [Bound] forms, any
     bounds), [set_len], [extend_from_slice], [spare_capacity_mut] and fills through the
-    [BufMut] impl. [edit_ok dbg cap e] is [True] for a build with overflow checks and debug
-    assertions; without them it asks for [set_len] within its contract and for no bound
-    whose [+ 1] overflows [usize]. *)
+    [BufMut] impl. [edit_ok dbg cap e] is [True] for a build with debug assertions; without
+    them it asks for [set_len] (an unsafe fn) to be called within its documented contract,
+    [new_len <= capacity], and for nothing else. *)
 From A10 Require Import Base.Word Base.Run Model.ReadBufEdit Proofs.ReadBufEditProofs.
 
 (** (a) Same contents, lengths and accept/refuse/reject decisions as the vector, call by
@@ -36,23 +36,27 @@ Proof. exact reads_confined_to_slot_holds. Qed.
 Theorem C15_release_slot_unchanged : release_slot_unchanged.
 Proof. exact release_slot_unchanged_holds. Qed.
 
-(** Without overflow checks the unrestricted form of (a) is false: a bound whose [+ 1] wraps
-    makes [remove] accept (and act on) a range the vector rejects. *)
-Theorem C15_release_build_remove_wraps_refuted :
-  exists cap psize s e,
-    pool_ok cap psize /\ owned_wf cap psize s /\
-    vec_step cap (abs cap s) e = (abs cap s, Rejected) /\
-    snd (rb_step false cap s e) = Done 0 /\
-    v_data (abs cap s) = [1; 2; 3; 4] /\
-    v_data (abs cap (fst (rb_step false cap s e))) = [].
-Proof. exact release_build_remove_wraps_refuted. Qed.
+(** Every build (with or without overflow checks and debug assertions), [set_len] within
+    its contract: no other side condition. *)
+Theorem C15_readbuf_refines_bounded_vec_every_build : readbuf_refines_bounded_vec_every_build.
+Proof. exact readbuf_refines_bounded_vec_every_build_holds. Qed.
 
-Theorem C15_every_build_refuted : ~ readbuf_refines_bounded_vec_every_build.
-Proof. exact every_build_refuted. Qed.
+(** What was wrong before the repair of H23 (unchecked [bound + 1] in [remove]): without
+    overflow checks two ranges the vector rejects were resolved to valid ranges. *)
+Theorem C15_remove_bounds_h23_refuted :
+  exists rs re ln,
+    norm_start_h23 false rs = Some 0 /\ norm_end_h23 false ln re = Some ln /\
+    ~ (range_lo rs <= range_hi ln re /\ range_hi ln re <= ln) /\
+    norm_start rs = None /\
+    norm_start_h23 false Unb = Some 0 /\ norm_end_h23 false ln (Incl usize_max) = Some 0 /\
+    ~ (range_hi ln (Incl usize_max) <= ln) /\
+    norm_end ln (Incl usize_max) = None.
+Proof. exact remove_bounds_h23_refuted. Qed.
 
 Check C15_readbuf_refines_bounded_vec_step : readbuf_refines_bounded_vec_step.
 Check C15_readbuf_refines_bounded_vec : readbuf_refines_bounded_vec.
 Check C15_readbuf_refines_bounded_vec_checked_build : readbuf_refines_bounded_vec_checked_build.
+Check C15_readbuf_refines_bounded_vec_every_build : readbuf_refines_bounded_vec_every_build.
 Check C15_rejection_changes_nothing : rejection_changes_nothing.
 Check C15_edits_confined_to_slot : edits_confined_to_slot.
 Check C15_reads_confined_to_slot : reads_confined_to_slot.
@@ -64,5 +68,5 @@ Print Assumptions C15_rejection_changes_nothing.
 Print Assumptions C15_edits_confined_to_slot.
 Print Assumptions C15_reads_confined_to_slot.
 Print Assumptions C15_release_slot_unchanged.
-Print Assumptions C15_release_build_remove_wraps_refuted.
-Print Assumptions C15_every_build_refuted.
+Print Assumptions C15_readbuf_refines_bounded_vec_every_build.
+Print Assumptions C15_remove_bounds_h23_refuted.
